@@ -273,6 +273,24 @@ def stripArgs : Args → Args
   | .cons e r => .cons (strip e) (stripArgs r)
 end
 
+mutual
+/-- no `paren` node anywhere -/
+def noParen : E → Bool
+  | .atom _ => true
+  | .bin _ l r => noParen l && noParen r
+  | .pre _ e => noParen e
+  | .pow _ a b => noParen a && noParen b
+  | .paren _ => false
+  | .ite c t r => noParen c && noParen t && noParenEls r
+  | .call _ as => noParenArgs as
+def noParenEls : Els → Bool
+  | .els e => noParen e
+  | .elif c t r => noParen c && noParen t && noParenEls r
+def noParenArgs : Args → Bool
+  | .nil => true
+  | .cons e r => noParen e && noParenArgs r
+end
+
 def E.isPrimary : E → Bool
   | .atom _ => true
   | .paren _ => true
